@@ -62,15 +62,6 @@ def judge(ctx, binp, item, r, st, label, profile):
         text = "%s: render panicked: %s at %s [canvas %dx%d, ts %s]" % (label, r['panic'][:120], at, W, H, rc.ts_str(t))
         if any(at.endswith(x) for x in FILTER_ASSERTS):
             return ctx.known_or_violation('filter-size-assert', text, replay)
-        if profile == 'debug' and re.search(r"filter/mod\.rs:24[345]$", at):
-            # f32_bound debug_assert: repaired for feComposite (baf34bc, 8d835b3); still reachable from feTurbulence
-            # with an absurd numOctaves only - anything else is a plain violation
-            cls = classify(ctx, binp, item)
-            replay['class_predicates'] = cls
-            if cls.get('octaves', 0) > 1000:
-                return ctx.known_or_violation('turbulence-octaves', text, replay)
-            if cls.get('turb_freq', 0) > 1e6:
-                return ctx.known_or_violation('turbulence-nonfinite', text, replay)
         ctx.violation(text, replay)
         return False
     slow = False
@@ -111,7 +102,9 @@ def judge(ctx, binp, item, r, st, label, profile):
         return ctx.known_or_violation('morphology-cost', text, replay)
     if slow and cls.get('octaves', 0) > 1000:
         return ctx.known_or_violation('turbulence-octaves', text, replay)
-    if cls.get('filter_px', 0) > area:
+    if cls.get('filter_alloc_px', 0) > area:
+        # only primitives that allocate their result with the (unclamped) region size count: blend, composite, flood,
+        # image, tile, turbulence, lighting, displacement map, merge
         st['cls_filter'] += 1
         return ctx.known_or_violation('filter-image-unbounded', text, replay)
     ctx.violation(text, replay)
@@ -143,6 +136,26 @@ def run_renders(ctx, binp, items, label, profile='release', extra=''):
 MUT_ATTRS = ['radius', 'stdDeviation', 'dx', 'dy', 'k1', 'k2', 'k3', 'k4', 'numOctaves', 'baseFrequency', 'scale', 'surfaceScale',
              'specularExponent', 'kernelUnitLength', 'order', 'divisor', 'bias', 'x', 'y', 'width', 'height', 'seed', 'z', 'limitingConeAngle']
 MUT_VALUES = ['0', '-1', '1e-40', '1e9', '3e9', '1e30', '3e38', '-3e38', '65536', '0.00001', '1e5']
+
+
+def morph_doc(W, H, R, radius, variant=0):
+    """feMorphology with radius `radius` in a userSpaceOnUse filter region of extent R around the canvas; variants feed
+    it from a flood with a huge sub-region, use bbox units, or two radii"""
+    reg = 'filterUnits="userSpaceOnUse" x="%s" y="%s" width="%s" height="%s"' % (fnum_(-R), fnum_(-R), fnum_(2 * R + W), fnum_(2 * R + H))
+    if variant == 1:
+        prim = ('<feOffset dx="1" dy="1" x="%s" y="%s" width="%s" height="%s" result="a"/><feMorphology in="a" operator="dilate" radius="%s"/>'
+                % (fnum_(-R), fnum_(-R), fnum_(2 * R), fnum_(2 * R), fnum_(radius)))
+    elif variant == 2:
+        reg = 'x="%s" y="%s" width="%s" height="%s"' % (fnum_(-R / 10.0), fnum_(-R / 10.0), fnum_(R / 5.0), fnum_(R / 5.0))
+        prim = '<feMorphology operator="erode" radius="%s %s"/>' % (fnum_(radius), fnum_(radius / 3.0))
+    else:
+        prim = '<feMorphology operator="%s" radius="%s"/>' % ('dilate' if variant == 0 else 'erode', fnum_(radius))
+    return ('<svg %s width="%d" height="%d"><filter id="f" %s>%s</filter><rect x="1" y="1" width="%d" height="%d" fill="#2a2" filter="url(#f)"/></svg>'
+            % (rc.NS, W, H, reg, prim, max(1, W - 3), max(1, H - 3)))
+
+
+def fnum_(x):
+    return repr(float(x))
 
 
 def gen_mutant(rng, path):
@@ -236,6 +249,57 @@ def run(ctx):
     for c, _ in kept:
         ctx.note_case("fit/%s" % (c,))
 
+    # ------------------------------------------------------------------ K: morphology kernel (window capped by the image)
+    ctx.coq_build(['Model/Morph.v'])
+    mcases = []
+    for _ in range(60 if quick else 400):
+        w, h = rng.below(7) + 1, rng.below(7) + 1
+        rx = rng.choice([0.3, 1, 2.5, float(w), 100, 1e9, 3e9, 1e30])
+        ry = rng.choice([0.3, 1, 2.5, float(h), 100, 1e9, 3e9, 1e30])
+        vals = [rng.below(256) if rng.below(3) else 0 for _ in range(4 * w * h)]
+        mcases.append((rng.choice(['erode', 'dilate']), rx, ry, w, h, vals))
+    outs = ctx.rvh_batch(binp, 'c02-morph', ["%s %r %r %d %d %s" % (o, rx, ry, w, h, ' '.join(map(str, v))) for o, rx, ry, w, h, v in mcases],
+                         chunk=4)
+    items = []
+    idx = []
+    nk_bad = 0
+    for k, (c, o) in enumerate(zip(mcases, outs)):
+        op, rx, ry, w, h, vals = c
+        if o is None or o.startswith('{') or ';' not in o:
+            nk_bad += 1
+            if nk_bad > 3:
+                continue
+            ctx.violation("morphology kernel: resvg::filter::morphology::apply(%s, rx=%r, ry=%r) on a %dx%d image did not return within 3 s "
+                          "or failed (%s): the window is not capped by the image" % (op, rx, ry, w, h, str(o)[:160]),
+                          dict(op='c02-morph', operator=op, rx=rx, ry=ry, size=[w, h], data=vals, result=str(o)[:300],
+                               doc=morph_doc(8, 8, 1e5, rx)))
+            continue
+        ms, res = o.split(';', 1)
+        res = [int(x) for x in res.split()]
+        if int(ms) > 1000:
+            ctx.violation("morphology kernel took %s ms on a %dx%d image (rx=%r ry=%r)" % (ms, w, h, rx, ry),
+                          dict(op='c02-morph', operator=op, rx=rx, ry=ry, size=[w, h], data=vals))
+        for ch in range(4):
+            items.append("(%s, %s, %s, (%d)%%Z, (%d)%%Z, [%s], [%s])" % ('true' if op == 'erode' else 'false', vlib.qstr(float(rx)) if rx < 1e20 else "(%d # 1)" % int(rx),
+                                                                         vlib.qstr(float(ry)) if ry < 1e20 else "(%d # 1)" % int(ry), w, h,
+                                                                         '; '.join(str(v) for v in vals[ch::4]), '; '.join(str(v) for v in res[ch::4])))
+            idx.append(k)
+    if items:
+        body = ("Local Open Scope Z_scope.\nDefinition cases : list (bool * Q * Q * Z * Z * list Z * list Z) := [\n%s\n].\n"
+                "Eval vm_compute in (bad_indices chk_morph cases).\n" % ";\n".join(items))
+        rcode, out = ctx.coq_eval('k_morph', body, ['Model.Base', 'Model.RenderPrims', 'Model.Corr', 'Gen.LeafMorph', 'Model.Morph'], timeout=300)
+        badl = ctx.parse_N_list(out) if rcode == 0 else None
+        if badl is None:
+            ctx.violation("morphology kernel: the model (source-derived window) could not be evaluated", dict(log=out[-1500:]), found_input=False)
+        else:
+            for b in badl[:2]:
+                op, rx, ry, w, h, vals = mcases[idx[b]]
+                ctx.violation("morphology kernel: morphology::apply(%s, rx=%r, ry=%r) on a %dx%d image differs from the model" % (op, rx, ry, w, h),
+                              dict(op='c02-morph', operator=op, rx=rx, ry=ry, size=[w, h], data=vals, result=outs[idx[b]]))
+        ctx.cov['morph_kernel_cases'] = len(items)
+        for c in mcases:
+            ctx.note_case("morph/%s" % (c[:5],))
+
     # ------------------------------------------------------------------ K: layer-trace
     jobs = rc.trace_jobs_corpus(ctx, rng.sample(files, 350 if quick else len(files)), 2 if quick else 4)
     jobs += rc.trace_jobs_generated(ctx, 300 if quick else 3000)
@@ -252,7 +316,8 @@ def run(ctx):
     # ------------------------------------------------------------------ S: regression inputs of fixed defects + witnesses of known ones
     wdir = os.path.join(vlib.VERIF, 'corpus', 'witness')
     fixed = ['F06.svg', 'morph-radius.svg', 'offset-huge.svg', 'region-overflow.svg', 'turbulence-frequency.svg',
-             'arith-k-overflow.svg', 'arith-k-huge-finite.svg', 'blur-sigma-huge.svg']
+             'arith-k-overflow.svg', 'arith-k-huge-finite.svg', 'blur-sigma-huge.svg', 'turbulence-frequency-nonfinite.svg',
+             'f32bound-convolve-bias.svg', 'f32bound-colormatrix.svg', 'f32bound-transfer-table.svg', 'f32bound-lighting.svg']
     items = [('@' + os.path.join(wdir, f), 100, 100, (1, 0, 0, 1, 0, 0)) for f in fixed if os.path.exists(os.path.join(wdir, f))]
     dbin, dlog = ctx.harness('debug')
     for prof, b in (('release', binp), ('debug', dbin)):
@@ -271,7 +336,6 @@ def run(ctx):
     WIT = {
         'F5 pattern tile': '<svg %s width="100" height="100"><pattern id="p" patternUnits="userSpaceOnUse" width="100000" height="100000"><rect width="5" height="5"/></pattern><rect width="100" height="100" fill="url(#p)"/></svg>',
         'F4 clamped region': '<svg %s width="100" height="100"><filter id="f" filterUnits="userSpaceOnUse" x="-1000" y="-1000" width="3000" height="3000"><feComposite operator="arithmetic" in2="SourceGraphic" k2="0.5" k3="0.5"/></filter><rect width="50" height="50" fill="green" filter="url(#f)"/></svg>',
-        'turbulence frequency': '<svg %s width="100" height="100"><filter id="f"><feTurbulence baseFrequency="1e30"/></filter><rect width="50" height="50" fill="green" filter="url(#f)"/></svg>',
         'turbulence octaves': '<svg %s width="100" height="100"><filter id="f"><feTurbulence baseFrequency="0.05" numOctaves="100000000"/></filter><rect width="50" height="50" fill="green" filter="url(#f)"/></svg>',
     }
     wit_items = [(d % rc.NS, 100, 100, (1, 0, 0, 1, 0, 0)) for d in WIT.values()]
@@ -320,6 +384,43 @@ def run(ctx):
         st = run_renders(ctx, dbin, muts[:60 if quick else 600], "e2e-C02 mutants", 'debug')
         stats['mutants_debug'] = st
         ctx.log("e2e-C02 mutants (debug): %s" % st)
+    # feMorphology with huge radii and filter regions / input sub-regions far larger than the clamp box on small
+    # canvases: at HEAD the kernel works on the (clamped) layer and caps its window by it, so these are fast
+    mitems = []
+    for _ in range(160 if quick else 1600):
+        W, H = rng.choice([(8, 8), (16, 12), (24, 24), (12, 30), (8, 8)])
+        mitems.append((morph_doc(W, H, rng.choice([200, 1e3, 1e4, 1e5, 1e6]), rng.choice([3, 50, 1e3, 1e6, 1e9]), rng.below(4)),
+                       W, H, transforms(W, H)[rng.choice(['identity', 'frac-shift', 'rotate'])]))
+    pay = ["-\t%s\t%d\t%d\t%s" % (d, W, H, rc.ts_str(t)) for d, W, H, t in mitems]
+    routs = ctx.rvh_batch(binp, 'c02-render', [p + "\tlimit=%d" % LIMIT_MS for p in pay], per_item_timeout=40, chunk=8)
+    couts = ctx.rvh_batch(binp, 'c02-classify', pay)
+    st = dict(renders=len(mitems), ok=0, panics=0, skipped=0, max_ms=0, ratio=0.0, cls_pattern=0, cls_morph=0, cls_filter=0, over_model=0)
+    nb = 0
+    for it, ro, co in zip(mitems, routs, couts):
+        try:
+            r = json.loads(ro)
+            cls = json.loads(co)
+        except (TypeError, ValueError):
+            r, cls = {'error': str(ro)[:100]}, {}
+        ctx.note_case("morph-doc/%s/%d/%d/%s" % (it[0][:300], it[1], it[2], rc.ts_str(it[3])))
+        if 'ok' in r:
+            # modelled work of HEAD's kernel: layer area x window capped by the layer (c02-classify morph_cost, the
+            # harness-side evaluation of Model.Morph.morph_ops on the clamped layer); measured throughput 3e5 window
+            # cells per ms in release, so 400 ms + cost / 2e4 leaves a factor 15
+            bound = 400 + cls.get('morph_cost', 0) / 2e4
+            if r['ms'] > bound and nb < 4:
+                nb += 1
+                st['over_model'] += 1
+                ctx.violation("e2e-C02 morphology: render took %d ms, the modelled kernel work (%.3g window cells: layer area x window "
+                              "capped by the layer) allows %d ms [canvas %dx%d]" % (r['ms'], cls.get('morph_cost', 0), bound, it[1], it[2]),
+                              dict(op='c02-render', profile='release', doc=it[0], canvas=[it[1], it[2]], root_transform=list(it[3]),
+                                   result=r, class_predicates=cls))
+                continue
+        if nb < 4 and not judge(ctx, binp, it, r, st, "e2e-C02 morphology", 'release'):
+            nb += 1
+    st['ratio'] = round(st['ratio'], 3)
+    stats['morphology'] = st
+    ctx.log("e2e-C02 morphology: %s" % st)
     ctx.cov['e2e'] = stats
     ctx.cov['e2e_cases'] = sum(s['renders'] for s in stats.values())
     ctx.add_sample(dict(op='c02-render', doc='@' + files[7], canvas=[64, 64], root_transform=list(transforms(64, 64)['rotate'])))
